@@ -129,6 +129,16 @@ def install():
             raise
 
     xtok.CounterToken.acquire = acquire
+    import experimaestro.scheduler.dependencies as xdep
+
+    real_add = xdep.Dependents.add
+
+    def add(self, dependency):
+        if ENG is not None:
+            ENG.on_dependents_add(dependency.origin)
+        return real_add(self, dependency)
+
+    xdep.Dependents.add = add
     for cls in sim.TASK_CLASSES:
         t = cls.__getxpmtype__()
         t.__initialize__()
@@ -284,6 +294,7 @@ class Engine:
         self.job_by_obj = {}
         self.resubmitted = False
         self.stale_fs = []
+        self.tokdir_run = run_index
         self.early_reclaim = False
         self.release_racers = []  # (f, ti): foreign holdings released at our next refused acquisition
         self.racers = []  # (f, ti, w): foreign acquisitions waiting for a window inside ours
@@ -430,6 +441,15 @@ class Engine:
         """Called (loop thread) when our acquisition has just been refused: a foreign holder
         registered with `frelrace` releases now and the watcher callback runs at once, before
         the scheduler re-checks the dependency"""
+        self.race_release(token, "at a refused acquisition")
+
+    def on_dependents_add(self, resource):
+        """Called (loop thread) when a dependency is being registered with its resource: the
+        same kind of release can happen right before"""
+        if any(t is resource for t in self.tokens):
+            self.race_release(resource, "while a dependency is being registered")
+
+    def race_release(self, token, when):
         from watchdog.events import FileDeletedEvent
 
         for ti, t in enumerate(self.tokens):
@@ -453,8 +473,8 @@ class Engine:
             if path.exists():
                 _foreign_release(self, key)
                 self.known_files.get(ti, {}).pop(path.name, None)
-                _deliver_now(self, lambda: token.on_deleted(FileDeletedEvent(str(path))), f"deleted:{path.name} (at a refused acquisition)")
-                self.notes.add("release-at-refused-acquisition")
+                _deliver_now(self, lambda: token.on_deleted(FileDeletedEvent(str(path))), f"deleted:{path.name} ({when})")
+                self.notes.add("release-" + when.replace(" ", "-"))
 
     def on_token_file_create(self, dependency):
         """Called (loop thread) right before our process writes a token file"""
@@ -485,7 +505,7 @@ class Engine:
         return True
 
     def tokdir(self, ti):
-        return self.scratch / f"tok{ti}-r{self.run_index}"
+        return self.scratch / f"tok{ti}-r{self.tokdir_run}"
 
 
 # ----------------------------------------------------------------------------------
@@ -564,7 +584,14 @@ def _run_one(case, scratch, run_index, done_before, prev=None, xp_name=None, end
     loop = xp.central.loop
     central = xp.central
     try:
-        for ti, tok in enumerate(case["tokens"]):
+        share = bool(case.get("share_tokens")) and prev is not None
+        if share:
+            # the same token objects serve both experiments of the process (xp.token(name, n))
+            eng.tokens = list(prev.tokens)
+            eng.tokdir_run = prev.tokdir_run
+            eng.known_files = prev.known_files
+            eng.notes.add("tokens-shared-between-experiments")
+        for ti, tok in enumerate(case["tokens"] if not share else []):
             if tok["kind"] == "file":
                 if tok.get("stale") and run_index == 0:
                     # token file left by a job of a scheduler that died; the job has ended since
@@ -574,6 +601,9 @@ def _run_one(case, scratch, run_index, done_before, prev=None, xp_name=None, end
                     (d / "stale.token").write_text(f"{tok['stale'][0]}\n{scratch / f'gone-job{ti}' / 'job'}\n")
                     eng.early_reclaim = bool(tok["stale"][1])
                     eng.notes.add("stale-token-file-at-start")
+                if tok.get("preheld") and run_index == 0:
+                    # a live job of another scheduler already holds part of the token when we open it
+                    _foreign_preheld(eng, 50 + ti, ti, tok["preheld"][0], bool(tok["preheld"][1]))
                 t = CounterToken(f"t{ti}", eng.tokdir(ti), tok["total"])
                 eng.early_reclaim = False
                 t.ipc_lock = LockProxy(t.ipc_lock)
@@ -948,6 +978,36 @@ def _foreign_acquire(eng, f, ti, w, twostep, scheduler_dies):
                 eng.add_event("foreign", f"release{key[0]}-{key[1]}", lambda k=key: _foreign_release(eng, k))
         else:
             eng.notes.add("foreign-scheduler-died")
+
+    eng.add_event("foreign", f"jobend{f}", job_ends)
+
+
+def _foreign_preheld(eng, f, ti, w, racer):
+    """A foreign holding that exists before our token object is constructed"""
+    d = eng.tokdir(ti)
+    d.mkdir(parents=True, exist_ok=True)
+    fj = eng.scratch / f"foreign{f}-r{eng.run_index}"
+    fj.mkdir(exist_ok=True)
+    child = subprocess.Popen(["sleep", "3600"], start_new_session=True)
+    eng.children.append(child)
+    (fj / "job.pid").write_text(json.dumps({"type": "local", "pid": child.pid}))
+    path = d / f"foreign{f}.token"
+    path.write_text(f"{w}\n{fj / 'job'}\n")
+    fjob = eng.foreign_jobs[f] = dict(dir=fj, child=child, alive=True, scheduler_dies=False, holdings=[(f, ti)])
+    eng.foreign[(f, ti)] = dict(path=path, w=w, ti=ti, job=fjob, dir=fj)
+    eng.notes.add("foreign-holding")
+    eng.notes.add("token-held-when-opened")
+    if racer:
+        eng.release_racers.append((f, ti))
+
+    def job_ends():
+        if not fjob["alive"]:
+            return
+        child.kill()
+        child.wait()
+        fjob["alive"] = False
+        (fj / "job.pid").unlink()
+        eng.add_event("foreign", f"release{f}-{ti}", lambda: _foreign_release(eng, (f, ti)))
 
     eng.add_event("foreign", f"jobend{f}", job_ends)
 
